@@ -1,0 +1,14 @@
+//go:build verif
+
+package ch
+
+// VerifGate, when set, is called at named points of the query, cancel
+// and handshake paths. It exists only in builds with the "verif" tag and
+// lets an external harness observe and order the goroutines of a call.
+var VerifGate func(point string)
+
+func verifGate(point string) {
+	if f := VerifGate; f != nil {
+		f(point)
+	}
+}
